@@ -2,6 +2,7 @@ package props
 
 import (
 	"fmt"
+	"regexp"
 	"strings"
 	"testing"
 	"unicode/utf8"
@@ -67,16 +68,100 @@ func genSourceText(t *rapid.T) srcCase {
 		l := gen.Pick(t, ls, "labelled")
 		k := gen.Pick(t, sortedKeys(l.Input), "file")
 		return srcCase{Name: k, Text: l.Input[k]}
+	case 3:
+		// qualified names of every shape (leading dot, export./local. prefixes, 2-4 components) as field types,
+		// extendees, rpc types and option names, with trivia between ALL their components
+		var toks []string
+		toks = append(toks, "syntax", "=", gen.Pick(t, []string{"\"proto2\"", "\"proto3\""}, "syn"), ";")
+		name := func() []string {
+			var out []string
+			switch gen.Uniform(t, 4, "prefix") {
+			case 0:
+				out = append(out, ".")
+			case 1:
+				out = append(out, gen.Pick(t, []string{"local", "export"}, "kw"), ".")
+			}
+			n := 1 + gen.Uniform(t, 4, "ncomp")
+			for i := 0; i < n; i++ {
+				if i > 0 {
+					out = append(out, ".")
+				}
+				out = append(out, gen.Pick(t, []string{"foo", "bar", "Baz", "a", "B", "local", "export", "message", "x1"}, "comp"))
+			}
+			return out
+		}
+		toks = append(toks, "message", "M", "{")
+		nf := 1 + gen.Uniform(t, 5, "nfields")
+		for i := 0; i < nf; i++ {
+			if gen.Pct(t, 40, "label") {
+				toks = append(toks, gen.Pick(t, []string{"optional", "repeated"}, "lbl"))
+			}
+			toks = append(toks, name()...)
+			toks = append(toks, gen.Pick(t, []string{"f", "g", "local", "export"}, "fname")+fmt.Sprint(i), "=", fmt.Sprint(i+1), ";")
+		}
+		if gen.Pct(t, 50, "opt") {
+			toks = append(toks, "option", "(")
+			toks = append(toks, name()...)
+			toks = append(toks, ")", ".", "x", "=", "1", ";")
+		}
+		toks = append(toks, "}")
+		if gen.Pct(t, 50, "extend") {
+			toks = append(toks, "extend")
+			toks = append(toks, name()...)
+			toks = append(toks, "{", "optional", "int32", "e", "=", "100", ";", "}")
+		}
+		if gen.Pct(t, 50, "svc") {
+			toks = append(toks, "service", "S", "{", "rpc", "Do", "(")
+			toks = append(toks, name()...)
+			toks = append(toks, ")", "returns", "(", "stream")
+			toks = append(toks, name()...)
+			toks = append(toks, ")", ";", "}")
+		}
+		st := gen.TriviaStyle{Comments: gen.Pct(t, 70, "comments"), Exotic: gen.Pct(t, 40, "exotic"), MultiByte: gen.Pct(t, 40, "mb")}
+		return srcCase{Name: "q.proto", Text: gen.Respell(t, toks, st)}
 	default:
 		ws := gen.GenWorkspace(t, gen.Config{MaxFiles: 2, CustomOpts: gen.Pct(t, 50, "custom")})
 		f := gen.Pick(t, ws.Files, "file")
 		st := gen.TriviaStyle{Comments: gen.Pct(t, 85, "comments"), Exotic: gen.Pct(t, 60, "exotic"), MultiByte: gen.Pct(t, 60, "mb")}
-		text := gen.Respell(t, gen.TokTexts(gen.Tokens(f)), st)
+		texts := gen.TokTexts(gen.Tokens(f))
+		if gen.Pct(t, 50, "splitdots") {
+			texts = splitDotted(texts)
+		}
+		text := gen.Respell(t, texts, st)
 		if gen.Pct(t, 10, "bom") {
 			text = "\xef\xbb\xbf" + text
 		}
 		return srcCase{Name: f.Name, Text: text}
 	}
+}
+
+var dottedRe = regexp.MustCompile(`^\.?[A-Za-z_][A-Za-z0-9_]*(\.[A-Za-z_][A-Za-z0-9_]*)+$|^\.[A-Za-z_][A-Za-z0-9_]*$`)
+
+// splitDotted splits every qualified name into its components and dots, so that trivia can go between them.
+func splitDotted(texts []string) []string {
+	var out []string
+	for _, tx := range texts {
+		if !dottedRe.MatchString(tx) {
+			out = append(out, tx)
+			continue
+		}
+		cur := ""
+		for _, ch := range tx {
+			if ch == '.' {
+				if cur != "" {
+					out = append(out, cur)
+					cur = ""
+				}
+				out = append(out, ".")
+			} else {
+				cur += string(ch)
+			}
+		}
+		if cur != "" {
+			out = append(out, cur)
+		}
+	}
+	return out
 }
 
 func c11Check(c srcCase, r *ev.Rec) error {
